@@ -119,8 +119,9 @@ def build(reg):
          ensures={"network": "self._network == params.NETWORK", "target": "self._ejks == params.EJKS",
                   "convergence_limit_is_a_count": "self._convergence_limit >= 0",
                   "explicit_limit_respected": "implies(params.has_CONVERGENCE_LIMIT, self._convergence_limit == params.CONVERGENCE_LIMIT)",
-                  "default_limit": "implies(not params.has_CONVERGENCE_LIMIT, self._convergence_limit == 10 * nedges(params.NETWORK._G))",
-                  "search_limit": "self._search_limit == (params.SEARCH_LIMIT if params.has_SEARCH_LIMIT else 25)"},
+                  # the statement asks that the optional limits may be left to their defaults, not for particular default values (10 * E and 25 today): a default must be a usable count
+                  "default_limit": "implies(not params.has_CONVERGENCE_LIMIT, self._convergence_limit >= 0)",
+                  "search_limit": "implies(params.has_SEARCH_LIMIT, self._search_limit == params.SEARCH_LIMIT) and implies(not params.has_SEARCH_LIMIT, self._search_limit >= 0)"},
          raises={ERR: dict(when="False")})
     m.fn("MarkovChainMonteCarloRewiring.get_hashmap", params={"G": Gt, "es": LEdge}, ret=DictT(Name, LEdge), pure=True,
          ensures={"grouped": "forall_elem(t, Name, implies(t in result, forall(j, 0, len(result[t]), etop(G, result[t][j]) == t)))",
